@@ -374,4 +374,53 @@ example :
             (fun g' => g'.sketches.map (·.mins)))))) = some [some (some (some [[1]]))] := by
   decide
 
+/-! ## T-store : `SigStore` and its lazily read signature -/
+
+/-- "Selecting from a … signature …" through a `SigStore`: a store whose signature was not read from
+    its storage yet REFUSES every selection (`Err`) — it never accepts one it cannot apply -/
+theorem store_unread_refused (sel : Selection) (st : Store) (h : st.data = none) :
+    st.select sel = .error .MismatchKSizes := by
+  simp [Store.select, h]
+
+/-- … and an ACCEPTED selection is honoured whenever the signature is looked at afterwards: if
+    `SigStore::select` returns `Ok`, the store held a signature, and `data()` on the result delivers
+    exactly the sketches of that signature that satisfy the request, each cut at the requested
+    ceiling (`selectSpec`) — whatever the storage behind the store would deliver.  Hypotheses as for
+    `sig_exact`. -/
+theorem store_exact (sel : Selection) (st st' : Store)
+    (hwf : ∀ sg, st.data = some sg → ∀ s ∈ sg.sketches, s.wf)
+    (hsc : ∀ sc, sel.scaled = some sc → sc < 4294967296)
+    (h : st.select sel = .ok st') :
+    ∃ sg, st.data = some sg ∧
+      st'.read = some ({ sg with sketches := selectSpec sel sg.sketches }, st') := by
+  cases hd : st.data with
+  | none => simp [Store.select, hd] at h
+  | some sg =>
+    refine ⟨sg, rfl, ?_⟩
+    have hx := sig_exact sel sg (hwf sg hd) hsc
+    simp only [Store.select, hd, hx] at h
+    injection h with h
+    subst h
+    simp [Store.read]
+
+/-- non-vacuity: a store that was read (DNA k=21 next to k=31, both scaled 2) accepts a request for
+    k=21 at scaled 4 and then delivers that one sketch cut at the ceiling of 4, although its storage
+    would deliver both -/
+example :
+    let sg : Sig := ⟨some [120], none, [⟨21, .dna, 0, maxHashForScaled 2, false, .vec, 1000, [1, 2^63], []⟩,
+                                         ⟨31, .dna, 0, maxHashForScaled 2, false, .vec, 1001, [1], []⟩]⟩
+    ((Store.select { ksize := some 21, scaled := some 4 } { data := some sg, backing := some sg }).toOption.bind
+      (fun s => s.read)).map (fun p => p.1.sketches.map (·.mins)) = some [[1]] := by
+  decide
+
+/-- reading first makes an unread store selectable: `data()` fills the cell from the storage -/
+theorem store_read_then_select (sel : Selection) (st : Store) (sg : Sig)
+    (hd : st.data = none) (hb : st.backing = some sg) :
+    ∃ st1, st.read = some (sg, st1) ∧ st1.select sel = (sg.select sel).map (fun sg' => { st1 with data := some sg' }) := by
+  refine ⟨{ st with data := some sg }, by simp [Store.read, hd, hb], ?_⟩
+  simp only [Store.select]
+  cases sg.select sel <;> rfl
+
+example : ({ data := none, backing := some default } : Store).data = none := rfl
+
 end Sourmash.C11
